@@ -60,12 +60,46 @@ def to_real(v): return z3.ToReal(v.z) if isinstance(v.t, IntT) else v.z
 CMP = {"Eq": operator.eq, "NotEq": operator.ne, "Lt": operator.lt, "LtE": operator.le, "Gt": operator.gt, "GtE": operator.ge,
        "Is": operator.eq, "IsNot": operator.ne}
 
+def symbols_of(e):
+    """names of the uninterpreted function symbols applied in a z3 expression (quantifier bodies included)"""
+    out = set(); seen = set(); todo = [e]
+    while todo:
+        x = todo.pop()
+        if x.get_id() in seen: continue
+        seen.add(x.get_id())
+        if z3.is_quantifier(x): todo.append(x.body()); continue
+        if z3.is_app(x):
+            d = x.decl()
+            if d.kind() == z3.Z3_OP_UNINTERPRETED and x.num_args() > 0: out.add(d.name())
+            todo.extend(x.children())
+    return out
+
 class Theory:
     """SMT side of the registry: spec-function symbols + axioms, proved lemmas, assumed axioms. cex_bound=None -> proof mode."""
     def __init__(self, reg, cex_bound=None):
         self.reg = reg; self.B = cex_bound; self.funcs = {}; self.axioms = []; self.side = []; self.lemma_axioms = []
+        self.sf_axioms = {}; self.sf_deps = {}; self.owned = set(); self.lemma_axioms_tagged = []
         self.assumptions = set()
-    def hyps(self): return self.axioms + self.lemma_axioms + [z for _, z, _ in self.reg.axioms]
+    def hyps(self): return self.axioms + [a for a, _ in self.lemma_axioms_tagged] + self.lemma_axioms + [z for _, z, _ in self.reg.axioms]
+    def hyps_for(self, goal, kind, pc=()):
+        """definition reveal by goal relevance: the unfolding axioms of a recursive spec function (and the lemmas about it) are passed to the solver only
+        when the goal mentions the function (transitively through the definitions); otherwise the function stays uninterpreted for this query.  Dropping
+        hypotheses is always sound; it keeps the queries small and stops unrelated obligations from unfolding big definitions.  Goals that are `false`
+        (unexpected exception, safety, canaries) get everything."""
+        names = set(self.sf_axioms); lemma_names = names
+        if not (kind in ("raises", "canary", "lemma", "hint") or kind.startswith("safe") or z3.is_false(goal)):
+            lemma_names = set(symbols_of(goal) & names)          # engine-proved lemmas are cheap, pattern-guarded facts: relevant when goal OR hypotheses mention the function
+            for h in pc: lemma_names |= symbols_of(h) & names
+            seen = symbols_of(goal) & names; todo = list(seen)
+            while todo:
+                for d in self.sf_deps.get(todo.pop(), ()):
+                    if d in names and d not in seen: seen.add(d); todo.append(d)
+            names = seen
+        out = [a for a in self.axioms if id(a) not in self.owned]
+        for nm in self.sf_axioms:
+            if nm in names: out += self.sf_axioms[nm]
+        out += [a for a, ns in self.lemma_axioms_tagged if ns & lemma_names or not ns] + self.lemma_axioms
+        return out + [z for _, z, _ in self.reg.axioms]
 
 class FnExec:
     def __init__(self, reg, qual, theory):
@@ -89,7 +123,7 @@ class FnExec:
     # ================================================================== obligations
     def oblige(self, name, kind, pc, goal, node=None):
         if self.mode == "spec": return
-        self.obligations.append(Obligation(f"{self.qual}:{name}", kind, self.th.hyps() + self.th.side + list(pc), goal, getattr(node, "lineno", None)))
+        self.obligations.append(Obligation(f"{self.qual}:{name}", kind, self.th.hyps_for(goal, kind, pc) + self.th.side + list(pc), goal, getattr(node, "lineno", None)))
 
     def branch_exc(self, pc, cond, exc, node):
         """operation may raise `exc` when cond holds: queue the exceptional path, continue on the normal one"""
@@ -412,7 +446,10 @@ class FnExec:
             self.pending_exc.append((list(pc) + [cond], exc, n))
             if rs.get("only", True): pc.append(z3.Not(cond))
         for nm, e in cs.ensures.items():
-            pc.append(self.spec_expr(e, post, pc).z)
+            try: pc.append(self.spec_expr(e, post, pc).z)
+            except Unsupported as ex_:
+                if "unknown name" not in str(ex_): raise
+                self.assumptions.add(f"clause {qual}:{nm} mentions the callee's locals and is not exported to callers (nothing is assumed from it)")
         if "self" in changed and recv[0] is not None: self.write_path(st, recv[0], recv[1], post.env["self"])
         if ctor: return post.env["self"]
         self.assumptions.add(f"modular call: {qual} used through its contract")
@@ -438,7 +475,9 @@ class FnExec:
             if st.old is None: raise Unsupported("old() without a pre-state")
             return self.expr(n.args[0], st.old, pc)
         if nm == "implies":
-            a = self.expr(n.args[0], st, pc); b = self.expr(n.args[1], st, pc); return Val(BOOL, z3.Implies(a.z, b.z))
+            a = self.expr(n.args[0], st, pc)
+            if z3.is_false(z3.simplify(a.z)): return Val(BOOL, z3.BoolVal(True))       # short-circuit: the consequent may mention names that exist only when the antecedent holds
+            b = self.expr(n.args[1], st, pc + [a.z]); return Val(BOOL, z3.Implies(a.z, b.z))
         if nm in ("forall", "exists") and self.th.B is None and isinstance(n.args[3], ast.Call) and isinstance(n.args[3].func, ast.Name) and n.args[3].func.id == nm:
             # directly nested quantifiers of the same kind become ONE multi-variable quantifier, so that E-matching can use a multi-pattern
             chain = []; cur = n
@@ -493,12 +532,17 @@ class FnExec:
         bound = [z3.Const(f"{p}_", t.sort()) for p, t in sf.params]
         st = State(); st.env = {p: Val(t, b) for (p, t), b in zip(sf.params, bound)}
         app = f(*bound)
+        mine = []
         if sf.define is not None:
-            th.axioms.append(z3.ForAll(bound, app == self.spec_expr(sf.define, st, []).z, patterns=[app]))
+            mine.append(z3.ForAll(bound, app == self.spec_expr(sf.define, st, []).z, patterns=[app]))
         else:
             n = bound[-1]
-            th.axioms.append(z3.ForAll(bound, z3.Implies(n <= 0, app == self.spec_expr(sf.base, st, []).z), patterns=[app]))
-            th.axioms.append(z3.ForAll(bound, z3.Implies(n > 0, app == self.spec_expr(sf.rec, st, []).z), patterns=[app]))
+            mine.append(z3.ForAll(bound, z3.Implies(n <= 0, app == self.spec_expr(sf.base, st, []).z), patterns=[app]))
+            mine.append(z3.ForAll(bound, z3.Implies(n > 0, app == self.spec_expr(sf.rec, st, []).z), patterns=[app]))
+        th.sf_axioms[sf.name] = mine; th.axioms += mine; th.owned |= {id(a) for a in mine}
+        deps = set()
+        for a in mine: deps |= symbols_of(a)
+        th.sf_deps[sf.name] = deps - {sf.name}
 
     def unroll(self, sf, args, depth):
         names = [p for p, _ in sf.params]; n = args[-1].z
@@ -618,6 +662,10 @@ class FnExec:
             raise Unsupported("tuple unpacking")
         if isinstance(tgt, ast.Attribute):
             root, steps = self.path_of(tgt, st, pc)
+            if isinstance(v.t, NoneT) and not isinstance(self.read_path(st, root, steps).t, NoneT):
+                # `self.f = None` for a field of another declared type: a placeholder, the field counts as not yet assigned
+                if root == "self" and len(steps) == 1: st.undef.add(steps[0][1]); return
+                raise Unsupported("None stored into a typed location")
             if root == "self" and len(steps) == 1: st.undef.discard(steps[0][1])
             self.write_path(st, root, steps, v); return
         if isinstance(tgt, ast.Subscript):
